@@ -194,6 +194,45 @@ namespace c18
   inline long double tol_factor(const ElemMeta& em) { return (long double)em.cfac; }
 
   // ------------------------------------------------------------------------------------------------
+  // pointwise comparison of the coarse function (vector uc on level a) and the fine function (vector uf on level b>a):
+  // for every fine cell the geometric parent (chain) and the affine child map are derived from the vertex coordinates,
+  // both functions are evaluated through feat3's evaluators at the same physical points
+  // ------------------------------------------------------------------------------------------------
+  template<int dim, bool simplex, typename Mesh_, typename Space_, typename Vec_>
+  void compare_fe_functions(const std::vector<std::unique_ptr<Mesh_>>& mesh, const std::vector<std::unique_ptr<Space_>>& space,
+    int a, int b, const Vec_& uc, const Vec_& uf, const double g[2][3], long double tf, long double eps, const std::string& etag, const char* what)
+  {
+    typedef Space_ SpaceType;
+    {
+      std::vector<Rel> rel;
+      for(int l = a; l < b; ++l) { rel.push_back(relate(*mesh[(size_t)l + 1], *mesh[(size_t)l])); VF_CHECK(rel.back().error.empty(), "harness: " << rel.back().error); }
+      FeEval<SpaceType> ef(*space[(size_t)b]), ec(*space[(size_t)a]);
+      auto pts = sample_points<dim, simplex>(g);
+      const long double scale = std::max((long double)1e-300L, max_abs_v(uc));
+      long double worst = 0;
+      for(Index f = 0; f < mesh[(size_t)b]->get_num_elements(); ++f)
+      {
+        for(auto& p : pts)
+        {
+          long double xf[3] = {p[0], p[1], p[2]}, xc[3]; Index cell = f;
+          for(int l = b - 1; l >= a; --l) { to_parent_ref<dim, simplex>(rel[(size_t)(l - a)].vref[cell], xf, xc); cell = Index(rel[(size_t)(l - a)].parent[cell]); for(int k = 0; k < dim; ++k) xf[k] = xc[k]; }
+          long double af = 0, ac = 0, imf[3], imc[3];
+          long double xfine[3] = {p[0], p[1], p[2]};
+          long double vfv = ef(uf, f, xfine, &af, imf), vcv = ec(uc, cell, xc, &ac, imc);
+          // harness self-check: both evaluations refer to the same physical point
+          long double dd = 0, nn = 0; for(int k = 0; k < dim; ++k) { dd += (imf[k] - imc[k]) * (imf[k] - imc[k]); nn += imf[k] * imf[k]; }
+          VF_CHECK(std::sqrt(dd) <= 1e-9L * (1.0L + std::sqrt(nn)), "harness: parent map inconsistent at fine cell " << f);
+          const long double err = std::fabs(vfv - vcv);
+          worst = std::max(worst, err / (eps * scale));
+          VF_CHECK(err <= tf * eps * scale, what << ": coarse and fine function differ at fine cell " << f << " ref (" << (double)p[0] << "," << (double)p[1] << "," << (double)p[2]
+            << "): fine " << (double)vfv << " coarse " << (double)vcv << " err " << (double)err << " tol " << (double)(tf * eps * scale));
+        }
+      }
+      calib(etag + " " + what, worst);
+    }
+  }
+
+  // ------------------------------------------------------------------------------------------------
   // the case
   // ------------------------------------------------------------------------------------------------
   template<typename Shape_, template<typename> class ElemT_, typename DT_>
@@ -236,6 +275,9 @@ namespace c18
     if(md.cells.size() * child_count > max_fine) nref = 1;
     int pst[3];
     for(int l = 0; l <= 2; ++l) pst[l] = t.pick({4, 2, 2, 2, 1, 1, 1, 1});
+    // known finding c18-cmk-disconnected: (reversed) algebraic Cuthill-McKee aborts ("No root node found") on a mesh with
+    // more than one connected component; with the switch on, such meshes get the lexicographic strategy instead
+    for(int l = 0; l <= nref; ++l) if(md.components > 1 && (pst[l] == 4 || pst[l] == 5) && c.excl("c18-cmk-disconnected")) pst[l] = 2;
     const int variant = t.range(0, 1);
     const int vcls = t.pick({1, 1, 3, 2, 4}) ;
     const int vcls_eff = (vcls + 2) % 5; // 0 on the tape -> small integers
@@ -316,35 +358,8 @@ namespace c18
       else { auto fn = Analytic::create_lambda_function_scalar_3d([&](DT_ x, DT_ y, DT_ z) { long double p[3] = {x, y, z}; return DT_(poly(p)); }); Assembly::Interpolator::project(v, fn, s); }
     };
 
-    // pointwise comparison of the coarse function (vector uc on level a) and the fine function (vector uf on level b>a)
     auto compare_functions = [&](int a, int b, const Vec& uc, const Vec& uf, const char* what)
-    {
-      std::vector<Rel> rel;
-      for(int l = a; l < b; ++l) { rel.push_back(relate(*mesh[(size_t)l + 1], *mesh[(size_t)l])); VF_CHECK(rel.back().error.empty(), "harness: " << rel.back().error); }
-      FeEval<SpaceType> ef(*space[(size_t)b]), ec(*space[(size_t)a]);
-      auto pts = sample_points<dim, simplex>(g);
-      const long double scale = std::max((long double)1e-300L, max_abs_v(uc));
-      long double worst = 0;
-      for(Index f = 0; f < mesh[(size_t)b]->get_num_elements(); ++f)
-      {
-        for(auto& p : pts)
-        {
-          long double xf[3] = {p[0], p[1], p[2]}, xc[3]; Index cell = f;
-          for(int l = b - 1; l >= a; --l) { to_parent_ref<dim, simplex>(rel[(size_t)(l - a)].vref[cell], xf, xc); cell = Index(rel[(size_t)(l - a)].parent[cell]); for(int k = 0; k < dim; ++k) xf[k] = xc[k]; }
-          long double af = 0, ac = 0, imf[3], imc[3];
-          long double xfine[3] = {p[0], p[1], p[2]};
-          long double vfv = ef(uf, f, xfine, &af, imf), vcv = ec(uc, cell, xc, &ac, imc);
-          // harness self-check: both evaluations refer to the same physical point
-          long double dd = 0, nn = 0; for(int k = 0; k < dim; ++k) { dd += (imf[k] - imc[k]) * (imf[k] - imc[k]); nn += imf[k] * imf[k]; }
-          VF_CHECK(std::sqrt(dd) <= 1e-9L * (1.0L + std::sqrt(nn)), "harness: parent map inconsistent at fine cell " << f);
-          const long double err = std::fabs(vfv - vcv);
-          worst = std::max(worst, err / (eps * scale));
-          VF_CHECK(err <= tf * eps * scale, what << ": coarse and fine function differ at fine cell " << f << " ref (" << (double)p[0] << "," << (double)p[1] << "," << (double)p[2]
-            << "): fine " << (double)vfv << " coarse " << (double)vcv << " err " << (double)err << " tol " << (double)(tf * eps * scale));
-        }
-      }
-      calib(etag + " " + what, worst);
-    };
+    { compare_fe_functions<dim, simplex>(mesh, space, a, b, uc, uf, g, tf, eps, etag, what); };
     auto compare_vectors = [&](const Vec& x, const Vec& y, long double tol, const char* what)
     {
       VF_CHECK(x.size() == y.size(), what << ": size " << x.size() << " vs " << y.size());
